@@ -267,6 +267,18 @@ def load_known():
     return out
 
 
+def claimed_level(prop):
+    """the level category MANIFEST.json claims for a property (evidence written on the violation path uses it too)"""
+    try:
+        m = json.load(open(os.path.join(ROOT, "MANIFEST.json")))
+        for c in m["checks"]:
+            if c["property_id"] == prop:
+                return c["level_claimed"]["category"]
+    except (OSError, ValueError, KeyError):
+        pass
+    return "other"
+
+
 def write_evidence(ctx, level, rule, explanation=None, exhaustive=False, checker_cmd=None):
     os.makedirs(EVIDENCE, exist_ok=True)
     cov = dict(ctx.cov)
@@ -1238,15 +1250,17 @@ def check_C10(ctx):
                      "rejected in every run")
 
 
-def run_cursor_enum(ctx, keys, length, configs, tag):
-    """Every cursor session (content x bound x entry point x operation sequence) on the real table; TLC judges"""
+def run_cursor_enum(ctx, keys, length, configs, tag, sweep_base=0):
+    """Every cursor session (content x bound x entry point x operation sequence) on the real table, or (sweep_base > 0)
+    one session in every gap of a three-level table; TLC judges"""
     from concurrent.futures import ThreadPoolExecutor
     chunks = 12
     prefix = os.path.join(ctx.work, f"curs-{tag}")
-    p = sh([bin_path("curs", "cursor"), "--keys", str(keys), "--len", str(length), "--configs", str(configs), "--chunks", str(chunks),
-            "--seed", str(ctx.seed), "--out-prefix", prefix], timeout=3600)
+    mode = ["--mode", "sweep", "--base", str(sweep_base)] if sweep_base else ["--keys", str(keys), "--len", str(length)]
+    p = sh([bin_path("curs", "cursor")] + mode + ["--configs", str(configs), "--chunks", str(chunks), "--seed", str(ctx.seed), "--out-prefix", prefix],
+           timeout=3600)
     stats = json.loads(p.stdout.strip().splitlines()[-1])
-    log(f"cursor sessions {tag}: {stats['sessions']} sessions ({stats['alphabet']} operations ^ {length}), {stats['events']} events, "
+    log(f"cursor sessions {tag}: {stats['sessions']} sessions, {stats['events']} events, "
         f"{stats['inserts_accepted']} inserts accepted / {stats['inserts_refused']} refused, {stats['panics']} panics")
     files = [f"{prefix}-{c}.ndjson" for c in range(chunks)]
     with ThreadPoolExecutor(max_workers=chunks) as pool:
@@ -1260,6 +1274,8 @@ def run_cursor_enum(ctx, keys, length, configs, tag):
     ctx.notes[f"cursor_sessions_{tag}"] = stats
     lines = open(files[0]).read().splitlines()
     ctx.add_samples([json.loads(l) for l in lines if '"e":"cur"' in l][100:102])
+    if sweep_base and stats["inserts_refused"] > 0:
+        raise ToolError(f"the sweep is built so that every insert falls into its gap, but {stats['inserts_refused']} were refused")
     for f in files:
         os.remove(f)
     return stats
@@ -1269,6 +1285,8 @@ def check_C18(ctx):
     build("cursor")
     # exhaustive: all sessions of up to 2 (quick) / 3 (thorough) operations over 3 / 4 keys
     run_cursor_enum(ctx, 3, 2, tiered(ctx, 3, 6), "k3l2")
+    # every gap of a three-level table, one session each (three shapes of insert runs), every accepted key looked up
+    run_cursor_enum(ctx, 0, 0, tiered(ctx, 3, 8), "sweep", sweep_base=tiered(ctx, 250, 800))
     if ctx.tier == "thorough":
         run_cursor_enum(ctx, 4, 2, 4, "k4l2")
         run_cursor_enum(ctx, 3, 3, 2, "k3l3")
@@ -1508,11 +1526,11 @@ def main(argv):
         for k in load_known():
             if k.get("property") == prop and k.get("kind") == "known" and k.get("signature") == v.signature:
                 print(f"KNOWN-FINDING: property={prop} {k.get('what')}")
-                write_evidence(ctx, "model_checking", "known finding reproduced", explanation=v.what)
+                write_evidence(ctx, claimed_level(prop), "known finding reproduced", explanation=v.what)
                 return 0
         ctx.violations = 1
         ctx.notes["violation"] = v.what
-        write_evidence(ctx, "model_checking", "violation found", explanation=v.what)
+        write_evidence(ctx, claimed_level(prop), "violation found", explanation=v.what)
         print(v.what)
         print(f"VIOLATION property={prop} replay={v.replay_path}")
         return 1
